@@ -21,6 +21,8 @@ type Case struct {
 	Slots string   `json:"slots"`
 	Shape string   `json:"shape"`
 	Steps string   `json:"steps"`
+	Conc  int      `json:"conc,omitempty"` // part conc: number of source families (hours of one day) written by every F step
+	Round int      `json:"round,omitempty"`
 }
 
 func (c *Case) String() string {
@@ -134,6 +136,20 @@ func forEachCase(part string, thorough bool, f func(c *Case) bool) {
 			for _, p := range pos {
 				for _, shape := range []string{"full", "one-sum"} {
 					if !f(&Case{Part: part, Fam: "h4", Pos: p, Slots: "edges", Shape: shape, Steps: steps}) {
+						return
+					}
+				}
+			}
+		}
+	case "conc":
+		rounds := 6
+		if thorough {
+			rounds = 40
+		}
+		for round := 0; round < rounds; round++ {
+			for _, n := range []int{24, 8, 2} {
+				for _, steps := range []string{"Fr", "FrFr", "FFr"} {
+					if !f(&Case{Part: part, Fam: "conc", Pos: Position{2019, 4, 15, 0}, Slots: "edges", Shape: "one-sum", Steps: steps, Conc: n, Round: round}) {
 						return
 					}
 				}
